@@ -347,8 +347,83 @@ def run_short_write(c: dict):
     return None, "returned"
 
 
+def arity_mismatch_cases():
+    for integ in ("generic", "rdflib"):
+        for scenario in ("empty-first-sink-then-triples", "short-statement-among-quads", "quadstream-fed-triples",
+                         "triplestream-fed-short-tuple"):
+            for fs in (1, 3, 250):
+                for at in (0, 2, 4):
+                    yield {"entry": "arity-mismatch:" + scenario, "integration": integ, "frame_size": fs, "at": at,
+                           "arity": 4, "n": 5, "delimited": True, "logical": None, "physical": 0, "flow": "inferred",
+                           "flow_logical": None, "collect": False}
+
+
+def run_arity_mismatch(c: dict):
+    """A statement that does not fit the stream cannot be honoured: the call must raise, or everything submitted
+    must be in the bytes."""
+    integ = c["integration"]
+    mod = gser if integ == "generic" else rser
+    conv = T.stmt_to_generic if integ == "generic" else T.stmt_to_rdflib
+    quads, triples = inputs(4, 5), inputs(3, 5)
+    out = io.BytesIO()
+    sc = c["entry"].split(":")[1]
+    submitted = None
+    try:
+        if sc == "empty-first-sink-then-triples":
+            if integ == "generic":
+                sinks = [pj.generic_sink_of([]), pj.generic_sink_of(triples)]
+            else:
+                sinks = [pj.rdflib_store_of([], dataset=True), pj.rdflib_store_of(triples, dataset=False)]
+            submitted = triples
+            mod.grouped_stream_to_file((x for x in sinks), out,
+                                       options=SerializerOptions(frame_size=c["frame_size"], lookup_preset=LookupPreset.small()) if integ == "rdflib" else None)
+        elif sc == "short-statement-among-quads":
+            seq = [conv(q) for q in quads]
+            short = seq[c["at"]][:3]
+            seq[c["at"]] = tuple(short) if integ == "rdflib" else type(conv(triples[0]))(*short)
+            submitted = quads
+            mod.flat_stream_to_file((x for x in seq), out, options=SerializerOptions(
+                frame_size=c["frame_size"], logical_type=2, lookup_preset=LookupPreset.small()))
+        elif sc == "quadstream-fed-triples":
+            stream = pj.make_stream({"integration": integ, "physical": 2},
+                                    SerializerOptions(frame_size=c["frame_size"], logical_type=2, lookup_preset=LookupPreset.small()))
+            submitted = triples
+            for fr in mod.stream_frames(stream, (conv(t) for t in triples)):
+                write_delimited(fr, out)
+        else:
+            stream = pj.make_stream({"integration": integ, "physical": 1},
+                                    SerializerOptions(frame_size=c["frame_size"], logical_type=1, lookup_preset=LookupPreset.small()))
+            seq = [conv(t) for t in triples]
+            seq[c["at"]] = tuple(seq[c["at"]])[:2]
+            submitted = triples
+            for fr in mod.stream_frames(stream, (x for x in seq)):
+                write_delimited(fr, out)
+    except Exception:  # noqa: BLE001 - refusing is the right answer
+        return None, "raised"
+    data = out.getvalue()
+    try:
+        got = [e for e in pj.parse("generic", "flat", data) if e[0] == "stmt"] if data else []
+    except Exception as ex:  # noqa: BLE001
+        return {"clause": "bytes-do-not-parse", "cfg": c, "streams": [], "n_bytes": len(data),
+                "summary": f"{sc} ({integ}): returned normally, {len(data)} bytes written, they do not parse ({type(ex).__name__})"}, "returned"
+    if len(got) < len(submitted):
+        return {"clause": "parse-differs", "cfg": c, "streams": [], "n_bytes": len(data),
+                "summary": f"{sc} ({integ}): the call returned normally but only {len(got)} of the {len(submitted)} statements handed "
+                           f"to it are in the {len(data)} bytes written (a statement that does not fit the stream must make it raise)"}, "returned"
+    return None, "returned"
+
+
 def run_shard(ctx):
     monitors.stream_registry_on()
+    if ctx.shard == 2 % ctx.nshards:
+        for c in arity_mismatch_cases():
+            w, outcome = run_arity_mismatch(c)
+            ctx.observe("arity-mismatch-inputs")
+            ctx.observe("configurations-accepted" if outcome == "returned" else "configurations-raised")
+            if w is not None:
+                ctx.violation(w)
+            ctx.case(tuple(sorted((k, str(v)) for k, v in c.items())), outcome == "returned",
+                     sample={"cfg": c, "kind": "statement arity does not match the stream", "outcome": outcome})
     if ctx.shard == 1 % ctx.nshards:
         for c in short_write_cases():
             w, outcome = run_short_write(c)
@@ -410,6 +485,8 @@ def replay(w: dict):
         return run_nested(c)[0]
     if str(c.get("entry", "")).startswith("short-write:"):
         return run_short_write(c)[0]
+    if str(c.get("entry", "")).startswith("arity-mismatch:"):
+        return run_arity_mismatch(c)[0]
     res = run_config(c)
     if res["outcome"] == "raised":
         return None
